@@ -167,6 +167,8 @@ def check_field(ctx, case):
             # distance-to-surface amplification as in C03 (observers closer than 1e-3 sizes)
             if s["cls"] in objs.MAGNETS and not kind.startswith("special"):
                 d = abs(float(G.depth(s, Pl[i:i + 1])[0])) / size
+                if s["cls"] == "CylinderSegment":   # also the extensions of its faces (C01 finding cylseg-near-coincidence-precision)
+                    d = min(d, float(G.cylseg_coincidence_dist(s, Pl[i:i + 1])[0]))
                 fl *= max(1.0, 1e-3 / max(d, 1e-12)) ** 2
             rt = 1e-9 if case["mode"] == "pow2" else 1e-7
             ok, w = tol.close_a(b, a, fl, rtol=rt)
